@@ -146,6 +146,18 @@ var histProgs = []string{
 	"let t=[3,1,2].number((j,y)->[j,y]); numbers(3).number((i,x)->t[i][1]+x)[a%3]+t[b%3][0]",
 	"let t=numbers(4).combine3((p,q,r)->p+q+r); let u=numbers(5).number((i,x)->i*x); numbers(3).fsm((s,x)->goto((s.state+u[x]+t[x%2])%3)).map(s->s.state)[a%3]",
 	"let t=numbers(5).compact((p,q)->p=q).number((i,x)->x*x); if a%2=0 then src.number((i,x)->t[i%5]+x)[0] else t[b%5]",
+	// comparison of a constant lazy list with an argument-dependent list that fails somewhere: the outcome
+	// must not depend on whether the constant has been materialised by an earlier evaluation
+	"let k=numbers(3).map(i->i+1); k = src.map(e->if e=b then e.nokey else e*2)",
+	"let k=numbers(4).map(i->i*2); (k != src.map(e->if e>a then e.nokey else e)) | (a=b)",
+	"let k=[1,2,3].map(i->i); switch src.map(e->if e=b then e.nokey else e) case k: 1 default 0",
+	"let k=numbers(3).map(i->i+1); [k = src.top(a%4).map(e->if e=b then e.nokey else e), k.size()=a].string()",
+	"let k=numbers(3).map(i->[i]); [[0],[1],[b]] ~ k.map(e->if e[0]=a then e.nokey else e)",
+	// a constant list that is used again (read, indexed, appended to) inside its own iteration
+	"let c=numbers(9).map(x->x*2); c.map(x->c.size()+x+a).reduce((p,q)->p+q)+c.append(b).size()",
+	"let c=numbers(6).map(x->x+1).eval(); c.cross(c,(p,q)->p*q+a).reduce((p,q)->p+q)+c.append(a).last()",
+	"let c=[1,2,3,4]; c.map(x->c[x%4]+c.append(x+a).size()).string()",
+	"let c=numbers(7).map(x->x+1); c.accept(x->x ~ c).map(x->c.append(x).size()+b).reduce((p,q)->p+q)+c[a%7]",
 }
 
 func genHistArgs(r *rng) []Arg {
@@ -382,7 +394,7 @@ var c09ReadOnly = []string{
 }
 
 // keys the map operations above can create: looked up one by one by the lookup observer
-const c09LookupObserver = `["a","b","c","k0","k1","k2","zz","yy","p","q","w","l","mm","inner","n5","n6","n7","n100","o0","o1","o2","o3","o7","rm5","rm6","rm7","rm100","c0","c1","c5","c7","c9","z"].map(k->[m.isAvail(k), try m.get(k) catch "none", k ~ m])`
+const c09LookupObserver = `["a","b","c","k0","k1","k2","zz","yy","p","q","w","l","mm","inner","n5","n6","n7","n100","o0","o1","o2","o3","o7","rm5","rm6","rm7","rm100","c0","c1","c5","c7","c9","z","k8","k9","k10","k11"].map(k->[m.isAvail(k), try m.get(k) catch "none", k ~ m])`
 
 func genC09(r *rng, tier string) *Case {
 	const nH = 8
@@ -400,12 +412,21 @@ func genC09(r *rng, tier string) *Case {
 	var ops []Op
 	live := []int{}
 	isMap := map[int]bool{}
+	// maps whose representation keeps the insertion order (literals, host ListMaps and what is derived
+	// from them without eval()): for these the order of entries is part of what must not change
+	ordered := map[int]bool{}
 	// initial handles
 	mk := func(slot int) {
 		switch r.intn(7) {
 		case 6:
-			ops = append(ops, Op{Kind: "eval", Fn: fn("{a:1,b:2}+{c:i}", "i", "v"), Args: []Arg{{K: "int", I: 3}, {K: "int", I: 0}}, Consume: 0, Store: slot + 1})
+			text := "{a:1,b:2}+{c:i}"
+			if r.chance(0.4) {
+				// a lookup table: twelve entries in one literal (insertion ordered representation)
+				text = "{k0:0,k1:10,k2:20,k3:30,k4:40,k5:50,k6:60,k7:70,k8:80,k9:90,k10:100,k11:i}"
+			}
+			ops = append(ops, Op{Kind: "eval", Fn: fn(text, "i", "v"), Args: []Arg{{K: "int", I: 3}, {K: "int", I: 0}}, Consume: 0, Store: slot + 1})
 			isMap[slot] = true
+			ordered[slot] = true
 		case 0:
 			ops = append(ops, Op{Kind: "eval", Fn: fn("numbers(i).map(x->x*2)", "i", "v"), Args: []Arg{{K: "int", I: pick(r, 0, 1, 4, 9, 16)}, {K: "int", I: 0}}, Consume: 0, Store: slot + 1})
 		case 1:
@@ -424,6 +445,7 @@ func genC09(r *rng, tier string) *Case {
 		default:
 			ops = append(ops, Op{Kind: "eval", Fn: fn("src", "src"), Args: []Arg{{K: "map", L: []int{1, 2, 3}[:r.rangeInt(1, 3)]}}, Consume: 0, Store: slot + 1})
 			isMap[slot] = true
+			ordered[slot] = true
 		}
 		live = append(live, slot)
 	}
@@ -432,6 +454,10 @@ func genC09(r *rng, tier string) *Case {
 			ops = append(ops, Op{Kind: "eval", Fn: fn("h", "h"), Args: []Arg{{K: "handle", I: s}}, Consume: -1, Observe: true})
 			if r.chance(0.5) {
 				ops = append(ops, Op{Kind: "eval", Fn: fn("[h.size(), h.string()]", "h"), Args: []Arg{{K: "handle", I: s}}, Consume: -1, Observe: true})
+			}
+			if isMap[s] && ordered[s] && r.chance(0.5) {
+				// the entries in their order (only where the representation has one)
+				ops = append(ops, Op{Kind: "eval", Fn: fn("m.list()", "m"), Args: []Arg{{K: "handle", I: s}}, Consume: -1, Observe: true})
 			}
 			if isMap[s] && r.chance(0.6) {
 				// key by key: lookups need not go the same way as iteration
@@ -491,6 +517,7 @@ func genC09(r *rng, tier string) *Case {
 			}
 			ops = append(ops, Op{Kind: "eval", Fn: fn(text, names...), Args: args, Consume: 0, Store: slot + 1})
 			isMap[slot] = true
+			ordered[slot] = ordered[parent] && !strings.Contains(text, "eval") && !strings.Contains(text, "inner") && !strings.Contains(text, "{inner")
 		} else if len(lists) > 0 && r.chance(0.15) {
 			// a read-only operation on two of the lists: nothing is stored, everything is observed again
 			a, b := pick(r, lists...), pick(r, lists...)
@@ -668,6 +695,13 @@ func judgeC10(name, prop string, sc *Script, r *RunOut, o *Obs) {
 			}
 			want := isolated(texts[op.Fn], names[op.Fn], op, sc.Host, o)
 			if want.Skipped || !want.Done {
+				continue
+			}
+			if want.Ok != got.Ok && (strings.Contains(got.Err, "injected transient source failure") || strings.Contains(want.Err, "injected transient source failure")) {
+				// A host source that fails at one element: whether an early-stopping consumer (top, first,
+				// present ...) gets to see that failure depends on how far a parallel stage has read ahead,
+				// which is a matter of C06/C08 (and not claimed there), not of the history.
+				o.tag("transient-source-failure-read-ahead")
 				continue
 			}
 			if want.class() != got.class() {
